@@ -39,7 +39,7 @@ fn rect_wire_len(r: &Rect) -> usize {
 pub fn gen_fastpath_pdu(ctx: &mut Ctx, max_total: usize, want_bitmap: bool) -> (Wr, Vec<Rect>) {
     let mut updates = Wr::new();
     let mut rects: Vec<Rect> = Vec::new();
-    let nupd = if want_bitmap { 1 + ctx.choose("n_updates", 8) as usize } else { ctx.choose("n_updates", 9) as usize };
+    let nupd = if want_bitmap { 1 + ctx.choose("n_updates", 8) as usize } else if ctx.chance("many_updates", 1, 16) { 9 + ctx.choose("n_updates_many", 40) as usize } else { ctx.choose("n_updates", 9) as usize };
     let mut room = max_total;
     for u in 0..nupd {
         if room < 8 {
@@ -48,7 +48,7 @@ pub fn gen_fastpath_pdu(ctx: &mut Ctx, max_total: usize, want_bitmap: bool) -> (
         let kind = if want_bitmap && u == 0 { 0 } else { ctx.choose("upd_kind", 4) };
         if kind <= 1 {
             // bitmap update
-            let nrect = match ctx.choose("n_rect_c", 4) { 0 => 1, 1 => 0, 2 => 2 + ctx.choose("n_rect", 5) as usize, _ => ctx.choose("n_rect_m", 41) as usize };
+            let nrect = match ctx.choose("n_rect_c", 16) { 0..=3 => 1, 4..=7 => 0, 8..=11 => 2 + ctx.choose("n_rect", 5) as usize, 12..=14 => ctx.choose("n_rect_m", 41) as usize, _ => 200 + ctx.choose("n_rect_many", 120) as usize };
             let mut rs = Vec::new();
             let mut avail = room.min(65535) - 7;
             for _ in 0..nrect {
@@ -56,7 +56,7 @@ pub fn gen_fastpath_pdu(ctx: &mut Ctx, max_total: usize, want_bitmap: bool) -> (
                     break;
                 }
                 // leave space for the remaining rectangles
-                let share = if ctx.chance("rect_big", 1, 4) { avail } else { avail.min(600) };
+                let share = if nrect > 100 { avail.min(40) } else if ctx.chance("rect_big", 1, 4) { avail } else { avail.min(600) };
                 let r = gen_rect(ctx, share);
                 avail -= rect_wire_len(&r);
                 rs.push(r);
